@@ -3,7 +3,11 @@
 package rules
 
 import (
+	"fmt"
+	"go/types"
 	"sort"
+
+	"golang.org/x/tools/go/ssa"
 
 	"tdverif/checker/engine"
 )
@@ -29,5 +33,73 @@ func All() []string {
 		out = append(out, k)
 	}
 	sort.Strings(out)
+	return out
+}
+
+// ordinal numbers an instruction among the instructions of the same kind in
+// its function (stable key that is not a line number).
+func ordinal(fn *ssa.Function, in ssa.Instruction) string {
+	n := 0
+	res := "?"
+	engine.Instrs(fn, func(i ssa.Instruction) {
+		if fmt.Sprintf("%T", i) == fmt.Sprintf("%T", in) {
+			if i == in {
+				res = fmt.Sprint(n)
+			}
+			n++
+		}
+	})
+	return res
+}
+
+func ordinalCall(fn *ssa.Function, in ssa.CallInstruction) string {
+	n := 0
+	res := "?"
+	id := engine.CalleeID(in.Common())
+	for _, c := range engine.Calls(fn) {
+		if engine.CalleeID(c.Common()) == id {
+			if c == in {
+				res = fmt.Sprint(n)
+			}
+			n++
+		}
+	}
+	return res
+}
+
+// allFunctions lists the source functions and methods of an SSA package.
+func allFunctions(c *engine.Ctx, sp *ssa.Package) []*ssa.Function {
+	var out []*ssa.Function
+	var names []string
+	for n := range sp.Members {
+		names = append(names, n)
+	}
+	sort.Strings(names)
+	for _, n := range names {
+		switch m := sp.Members[n].(type) {
+		case *ssa.Function:
+			if len(m.Blocks) > 0 {
+				out = append(out, m)
+			}
+		case *ssa.Type:
+			for _, t := range []types.Type{m.Type(), types.NewPointer(m.Type())} {
+				ms := c.Prog.MethodSets.MethodSet(t)
+				for i := 0; i < ms.Len(); i++ {
+					f := c.Prog.MethodValue(ms.At(i))
+					if f != nil && len(f.Blocks) > 0 && f.Synthetic == "" && f.Pkg == sp {
+						dup := false
+						for _, o := range out {
+							if o == f {
+								dup = true
+							}
+						}
+						if !dup {
+							out = append(out, f)
+						}
+					}
+				}
+			}
+		}
+	}
 	return out
 }
